@@ -182,6 +182,56 @@ fn judge_chains(order: (u64, u64), t: &mut Tally) {
     }
 }
 
+/// Metadata values assembled through the chaining setters in every order (every permutation of
+/// every subset of with_title / with_creation_time / with_language, and each setter also called
+/// twice - a decoy value first): the value handed to the builder holds what the last call of each
+/// setter said, whatever the order.
+fn judge_metadata_setter_orders(order: (u64, u64), t: &mut Tally) {
+    use muxide::api::{Metadata, MuxerBuilder, VideoCodec};
+    let perms: [&[u8]; 16] = [&[], &[0], &[1], &[2], &[0, 1], &[1, 0], &[0, 2], &[2, 0], &[1, 2], &[2, 1], &[0, 1, 2], &[0, 2, 1], &[1, 0, 2], &[1, 2, 0], &[2, 0, 1], &[2, 1, 0]];
+    let mut k = 0;
+    for perm in perms {
+        for decoy in [false, true] {
+            for audio in [false, true] {
+                k += 1;
+                t.evaluations += 1;
+                let mut md = Metadata::new();
+                if decoy {
+                    for &s in perm.iter().rev() {
+                        md = match s {
+                            0 => md.with_title("decoy title"),
+                            1 => md.with_creation_time(86_400),
+                            _ => md.with_language("zzz"),
+                        };
+                    }
+                }
+                for &s in perm {
+                    md = match s {
+                        0 => md.with_title("Ordered é"),
+                        1 => md.with_creation_time(951_782_400),
+                        _ => md.with_language("deu"),
+                    };
+                }
+                let mut out = Vec::new();
+                {
+                    let mut b = MuxerBuilder::new(&mut out).video(VideoCodec::H264, 640, 480, 30.0).with_fast_start(k % 2 == 0);
+                    if audio {
+                        b = b.audio(muxide::api::AudioCodec::Opus, 48000, 2);
+                    }
+                    let mut m = b.with_metadata(md).build().expect("build");
+                    let _ = m.finish_in_place();
+                }
+                let has = |x: u8| perm.contains(&x);
+                let meta = if perm.is_empty() { Some(MMeta { title: None, time: None, lang: None }) } else { Some(MMeta { title: has(0).then(|| "Ordered é".to_string()), time: has(1).then_some(951_782_400), lang: has(2).then(|| "deu".to_string()) }) };
+                let m = parse_movie(&out, "prog");
+                for (s, d) in metadata_issues(&m, &meta, true) {
+                    t.violation(&format!("C18/metadata-setter-order/{s}"), (order.0, order.1 + 10_000 + k), || format!("Metadata setters called in order {perm:?} (0 title, 1 creation time, 2 language; decoy values first: {decoy}): {d}"), || json!({"engine": "E2-c18-setter-order", "perm": perm, "decoy": decoy, "audio": audio}));
+                }
+            }
+        }
+    }
+}
+
 enum Item {
     Days(i64, i64, Vec<u64>),
     SpecialDays(i64, i64),
@@ -269,6 +319,7 @@ pub fn check(ctx: &Ctx) -> i32 {
         }
         Item::Combos => {
             judge_chains((idx as u64, 50_000_000), t);
+            judge_metadata_setter_orders((idx as u64, 60_000_000), t);
             let titles: Vec<Option<String>> = vec![None, Some(String::new()), Some("a".into()), Some("é".into()), Some("日本".into()), Some("\u{1d11e}".into()), Some("x".repeat(255)), Some("y".repeat(256)), Some("z".repeat(70000)), Some("nul\0inside".into()), Some("  padded \n".into()), Some(" ".into()), Some("\ttab".into())];
             // titles that spell the four-character codes of the boxes around them (writers that
             // search their own output for a code, or patch a box in place, find the title instead)
@@ -318,7 +369,7 @@ pub fn check(ctx: &Ctx) -> i32 {
         &tally,
         Meta {
             level: "exploration",
-            rule: format!("creation times: every day from 1970-01-01 to {y:04}-{m:02}-{d:02} at seconds-of-day {secs:?}{}; all 17576 lower-case three-letter language codes on A/V files (every track's mdhd); the product of 49 titles (empty, 1-4 byte scalars, 255/256/70000 bytes, embedded NUL, surrounding and only whitespace, and 36 titles spelling the four-character code of a box of the file, in prose or followed by bytes that read as a table header) x 4 creation times x 10 language values (3 well-formed, 7 malformed - for those only well-formedness is demanded) x 0-2 frames x 4 codec/audio/layout configurations (and, for every language value, three frames 15 000 s apart: tracks longer than 2^31 ticks), each also compared with the same history without metadata (reader-reduced movie equal, chunk offsets shifted uniformly by the size of udta in the fast-start layout and not at all otherwise). Builder chains (with_metadata(title) then set_create_time / set_language in either order) must equal the complete Metadata value. Reference calendar: civil-from-days, written independently. Distinct by (udta bytes, packed language).", if ctx.thorough { "" } else { ", plus Jan 1 / Feb 28 / Feb 29 or Mar 1 / Mar 1 / Dec 31 of every year to 9999 at 0 and 86399" }),
+            rule: format!("creation times: every day from 1970-01-01 to {y:04}-{m:02}-{d:02} at seconds-of-day {secs:?}{}; all 17576 lower-case three-letter language codes on A/V files (every track's mdhd); the product of 49 titles (empty, 1-4 byte scalars, 255/256/70000 bytes, embedded NUL, surrounding and only whitespace, and 36 titles spelling the four-character code of a box of the file, in prose or followed by bytes that read as a table header) x 4 creation times x 10 language values (3 well-formed, 7 malformed - for those only well-formedness is demanded) x 0-2 frames x 4 codec/audio/layout configurations (and, for every language value, three frames 15 000 s apart: tracks longer than 2^31 ticks), each also compared with the same history without metadata (reader-reduced movie equal, chunk offsets shifted uniformly by the size of udta in the fast-start layout and not at all otherwise). Builder chains (with_metadata(title) then set_create_time / set_language in either order) must equal the complete Metadata value; Metadata values assembled through the chaining setters in every permutation of every subset (each setter also called twice, a decoy first) hold what the last call of each setter said. Reference calendar: civil-from-days, written independently. Distinct by (udta bytes, packed language).", if ctx.thorough { "" } else { ", plus Jan 1 / Feb 28 / Feb 29 or Mar 1 / Mar 1 / Dec 31 of every year to 9999 at 0 and 86399" }),
             bound: if ctx.thorough { "every day of years 1970-9999".into() } else { "every day 1970-2110, calendar-special days to 9999".to_string() },
             exhaustive: true,
             assumptions: vec!["termination for creation times up to u64::MAX is C12's child-process check".into()],
